@@ -1,6 +1,6 @@
 (* C17: the C ABI's argument handling. *)
 From Coq Require Import List String ZArith Bool Lia.
-From AV Require Import Model.VTypes Model.Store Model.Ffi Generated.Ffi.
+From AV Require Import Model.VTypes Model.Store Model.Encode Model.Ffi Generated.Ffi.
 Import ListNotations.
 Local Open Scope string_scope.
 
@@ -63,4 +63,40 @@ Proof.
   destruct Hin as [->|Hin].
   - unfold load_typed. rewrite Hl. destruct (Nat.eqb_spec (oty o) ty); [contradiction|reflexivity].
   - rewrite (IH Hin). destruct (load_typed m x ty); reflexivity.
+Qed.
+
+(* ---- marshalling rules of list arguments ---- *)
+Lemma enc_values_nth names : forall raws encs i n r, List.length names = List.length raws ->
+  nth_error names i = Some n -> nth_error raws i = Some r ->
+  nth_error (enc_values names raws encs) i = Some (n, (r, match nth_error encs i with Some (Some e) => e | _ => encode r end)).
+Proof.
+  induction names as [|n0 ns IH]; intros raws encs i n r Hl Hn Hr; [destruct i; discriminate|].
+  destruct raws as [|r0 rs]; [discriminate|]. cbn [enc_values]. destruct i as [|i].
+  - cbn in Hn, Hr. inversion Hn; inversion Hr; subst. cbn [nth_error]. destruct encs as [|[e|] es]; reflexivity.
+  - cbn [nth_error] in *. rewrite (IH rs (tl encs) i n r ltac:(cbn in Hl; lia) Hn Hr). destruct encs as [|e0 es]; [destruct i; reflexivity|reflexivity].
+Qed.
+Lemma enc_values_length names : forall raws encs, List.length names = List.length raws -> List.length (enc_values names raws encs) = List.length names.
+Proof. induction names as [|n ns IH]; intros [|r rs] encs H; try discriminate; [reflexivity|]. cbn [enc_values List.length]. rewrite IH; [reflexivity|cbn in H; lia]. Qed.
+
+Lemma index_cast_id i : (0 <= i < 2147483648)%Z -> index_cast i = i.
+Proof. intros H. unfold index_cast. apply Z.mod_small. lia. Qed.
+Lemma index_cast_negative i : (-2147483648 <= i < 0)%Z -> (2147483648 <= index_cast i < 4294967296)%Z.
+Proof.
+  intros H. unfold index_cast.
+  assert (E : (i mod 4294967296 = i + 4294967296)%Z) by (symmetry; apply Z.mod_unique with (q := (-1)%Z); lia).
+  rewrite E. lia.
+Qed.
+
+Lemma ovr_find_last l rid req o : ovr_find (l ++ [(rid, req, o)]) rid req = Some o.
+Proof. unfold ovr_find. rewrite rev_app_distr. cbn [rev app find fst snd]. rewrite String.eqb_refl, Z.eqb_refl. reflexivity. Qed.
+Lemma ovr_find_other l rid req rid' req' o : (rid', req') <> (rid, req) -> ovr_find (l ++ [(rid', req', o)]) rid req = ovr_find l rid req.
+Proof.
+  intros H. unfold ovr_find. rewrite rev_app_distr. cbn [rev app find fst snd].
+  destruct (String.eqb_spec rid' rid) as [->|_]; [|reflexivity]. destruct (Z.eqb_spec req' req) as [->|_]; [contradiction H; reflexivity|reflexivity].
+Qed.
+Lemma ovr_find_in l rid req o : ovr_find l rid req = Some o -> In (rid, req, o) l.
+Proof.
+  unfold ovr_find. intros H. destruct (find _ (rev l)) as [[[a b] c]|] eqn:E; [|discriminate]. cbn in H. inversion H; subst c.
+  apply find_some in E as [Hin Hb]. cbn [fst snd] in Hb. apply andb_prop in Hb as [H1 H2]. apply String.eqb_eq in H1. apply Z.eqb_eq in H2. subst.
+  apply in_rev. exact Hin.
 Qed.
